@@ -14,7 +14,7 @@ LEVEL = 'exploration'
 DEPENDS = []
 GROUP_ENV = {'jit': {}, 'pure': {'NUMBA_DISABLE_JIT': '1'}}
 MIN_DECISIVE = {'quick': 40, 'thorough': 600}
-MIN_COUNTERS = {'quick': {'grid_points': 20000}, 'thorough': {'grid_points': 300000}}
+MIN_COUNTERS = {'quick': {'grid_points': 10000}, 'thorough': {'grid_points': 150000}}
 CASE_TIMEOUT = 900
 WARMUP = True
 RULE = ('each case = one call on a random grid (4-6 radii x 5-8 longitudes x 5-8 colatitudes in (0.15, pi-0.15) x 2-3 times) with random complex '
@@ -65,6 +65,11 @@ def eval_case(c):
             viol.append({'key': key, 'desc': desc, 'data': data})
 
     nr, nlon, ncol, nt = int(rng.integers(4, 7)), int(rng.integers(5, 9)), int(rng.integers(5, 9)), int(rng.integers(2, 4))
+    shape_kind = c['sub'] % 6
+    if shape_kind == 4:
+        nr, nt = 1, 1          # degenerate grid shapes: a single radius and a single time
+    elif shape_kind == 5:
+        nr, nlon = 2, 1
     lon = np.sort(rng.uniform(0, 2 * math.pi, nlon))
     col = np.sort(rng.uniform(0.15, math.pi - 0.15, ncol))
     n = 10 ** rng.uniform(-6, -4)
